@@ -66,15 +66,15 @@ func (a lin) String() string {
 }
 
 type prover struct {
-	fn       *ssa.Function
-	c        *Ctx
-	nonneg   map[ssa.Value]bool
-	upper    map[atomKey]int64 // known constant upper bounds of atoms
-	contracts map[string]contract
-	depthCap int
+	fn           *ssa.Function
+	c            *Ctx
+	nonneg       map[ssa.Value]bool
+	upper        map[atomKey]int64 // known constant upper bounds of atoms
+	contracts    map[string]contract
+	depthCap     int
 	canonLoads   map[[2]interface{}]ssa.Value
 	storedFields map[string]bool
-	requires []lin // assumed at entry (checked at every call site)
+	requires     []lin // assumed at entry (checked at every call site)
 }
 
 // contract of a callee: on its success edge, 0 <= result[ret] <= len(arg[arg]).
